@@ -1,5 +1,522 @@
-//! Handshake engine (E3) and handshake-related pure cases.
+//! Handshake engine (E3) and handshake-related pure cases (E1).
 
-pub fn run(_kind: &str, _f: &[&str]) -> Option<(String, String)> {
-    None
+use crate::transport::{hex, unhex, Rd, Script, Snapshot};
+use crate::{error_s, join_or_dash, list, op_of, opt_usize, parse_usize_or_inf, run_ops_on};
+use std::panic::{catch_unwind, AssertUnwindSafe};
+use tungstenite::client::{ClientRequestBuilder, IntoClientRequest};
+use tungstenite::handshake::client::generate_request;
+use tungstenite::handshake::derive_accept_key;
+use tungstenite::handshake::machine::TryParse;
+use tungstenite::handshake::server::{create_response, ErrorResponse, Request, Response};
+use tungstenite::handshake::HandshakeError;
+use tungstenite::http;
+use tungstenite::protocol::{WebSocket, WebSocketConfig};
+
+const MAX_HEADERS: usize = 124;
+
+fn headers_of(s: &str) -> Vec<(Vec<u8>, Vec<u8>)> {
+    if s == "-" || s.is_empty() {
+        return vec![];
+    }
+    s.split(';')
+        .map(|nv| {
+            let mut p = nv.split('=');
+            (unhex(p.next().unwrap()), unhex(p.next().unwrap()))
+        })
+        .collect()
 }
+
+fn headers_s<'a>(it: impl Iterator<Item = (&'a [u8], &'a [u8])>) -> String {
+    let v: Vec<String> = it.map(|(n, v)| format!("{}={}", hex(n), hex(v))).collect();
+    if v.is_empty() {
+        "-".into()
+    } else {
+        v.join(";")
+    }
+}
+
+fn headermap_s(h: &http::HeaderMap) -> String {
+    headers_s(h.iter().map(|(k, v)| (k.as_str().as_bytes(), v.as_bytes())))
+}
+
+/// Header list of a client request in the order generate_request will see it: the five required
+/// headers (all their values) first, then what `HeaderMap` iterates over after those five names were
+/// removed in generate_request's order (removal permutes the map's internal order: an `http` crate detail
+/// that the model takes as given).
+fn client_headers_s(h: &http::HeaderMap) -> String {
+    const REQ: [&str; 5] = ["host", "connection", "upgrade", "sec-websocket-version", "sec-websocket-key"];
+    let mut v: Vec<(Vec<u8>, Vec<u8>)> = vec![];
+    for (k, val) in h.iter() {
+        if REQ.contains(&k.as_str()) {
+            v.push((k.as_str().as_bytes().to_vec(), val.as_bytes().to_vec()));
+        }
+    }
+    let mut rest = h.clone();
+    for r in REQ {
+        rest.remove(r);
+    }
+    for (k, val) in rest.iter() {
+        v.push((k.as_str().as_bytes().to_vec(), val.as_bytes().to_vec()));
+    }
+    headers_s(v.iter().map(|(n, x)| (&n[..], &x[..])))
+}
+
+fn config_of(f: &[&str], i: usize) -> WebSocketConfig {
+    let mut cfg = WebSocketConfig::default();
+    cfg.write_buffer_size = f[i].parse().unwrap();
+    cfg.max_write_buffer_size = parse_usize_or_inf(f[i + 1]);
+    cfg.max_message_size = opt_usize(f[i + 2]);
+    cfg.max_frame_size = opt_usize(f[i + 3]);
+    cfg.accept_unmasked_frames = f[i + 4] == "1";
+    cfg.read_buffer_size = f[i + 5].parse().unwrap();
+    cfg
+}
+
+/// raw parse outcome of a request head, as the model's oracle sees it
+fn oracle_req(buf: &[u8]) -> String {
+    let mut hbuf = [httparse::EMPTY_HEADER; MAX_HEADERS];
+    let mut req = httparse::Request::new(&mut hbuf);
+    match req.parse(buf) {
+        Ok(httparse::Status::Partial) => "P".into(),
+        Err(httparse::Error::TooManyHeaders) => "M".into(),
+        Err(_) => "E".into(),
+        Ok(httparse::Status::Complete(n)) => {
+            let fmt_ok = !matches!(Request::try_parse(buf), Err(tungstenite::Error::HttpFormat(_)));
+            let hs: Vec<(Vec<u8>, Vec<u8>)> = req
+                .headers
+                .iter()
+                .map(|h| (h.name.to_ascii_lowercase().into_bytes(), h.value.to_vec()))
+                .collect();
+            format!(
+                "C:{}:{}:{}:{}:{}:{}",
+                n,
+                hex(req.method.unwrap_or("").as_bytes()),
+                req.version.unwrap_or(9),
+                hex(req.path.unwrap_or("").as_bytes()),
+                if fmt_ok { 1 } else { 0 },
+                headers_s(hs.iter().map(|(n, v)| (&n[..], &v[..])))
+            )
+        }
+    }
+}
+
+fn oracle_resp(buf: &[u8]) -> String {
+    let mut hbuf = [httparse::EMPTY_HEADER; MAX_HEADERS];
+    let mut resp = httparse::Response::new(&mut hbuf);
+    match resp.parse(buf) {
+        Ok(httparse::Status::Partial) => "P".into(),
+        Err(httparse::Error::TooManyHeaders) => "M".into(),
+        Err(_) => "E".into(),
+        Ok(httparse::Status::Complete(n)) => {
+            let fmt_ok = !matches!(
+                tungstenite::handshake::client::Response::try_parse(buf),
+                Err(tungstenite::Error::HttpFormat(_))
+            );
+            let hs: Vec<(Vec<u8>, Vec<u8>)> = resp
+                .headers
+                .iter()
+                .map(|h| (h.name.to_ascii_lowercase().into_bytes(), h.value.to_vec()))
+                .collect();
+            format!(
+                "C:{}:{}:{}:{}:{}",
+                n,
+                resp.version.unwrap_or(9),
+                resp.code.unwrap_or(0),
+                if fmt_ok { 1 } else { 0 },
+                headers_s(hs.iter().map(|(n, v)| (&n[..], &v[..])))
+            )
+        }
+    }
+}
+
+/// table of oracle outcomes for every cumulative buffer the reading stage saw
+fn table(chunks: &[Vec<u8>], is_req: bool) -> String {
+    let mut cum: Vec<u8> = vec![];
+    let mut out: Vec<String> = vec![];
+    for c in chunks {
+        cum.extend_from_slice(c);
+        let o = if is_req { oracle_req(&cum) } else { oracle_resp(&cum) };
+        if o != "P" {
+            out.push(format!("{}={}", cum.len(), o));
+        }
+    }
+    join_or_dash(&out)
+}
+
+enum Cb {
+    None,
+    Add(Vec<(Vec<u8>, Vec<u8>)>),
+    Rej(u16, Option<Vec<u8>>, Vec<(Vec<u8>, Vec<u8>)>),
+}
+
+fn cb_of(s: &str) -> Result<Cb, String> {
+    let p: Vec<&str> = s.split(':').collect();
+    Ok(match p.as_slice() {
+        ["none"] => Cb::None,
+        ["add", hs] => Cb::Add(headers_of(hs)),
+        ["rej", st, body, hs] => Cb::Rej(
+            st.parse().map_err(|_| "status")?,
+            if *body == "none" { None } else { Some(unhex(body)) },
+            headers_of(hs),
+        ),
+        _ => return Err("callback".into()),
+    })
+}
+
+fn drive<R: tungstenite::handshake::HandshakeRole>(
+    first: Result<R::FinalResult, HandshakeError<R>>,
+    peek: impl Fn(&tungstenite::handshake::MidHandshake<R>) -> bool,
+    log_i: impl Fn(&mut tungstenite::handshake::MidHandshake<R>),
+) -> Result<R::FinalResult, Result<tungstenite::Error, tungstenite::handshake::MidHandshake<R>>> {
+    let mut cur = first;
+    loop {
+        match cur {
+            Ok(v) => return Ok(v),
+            Err(HandshakeError::Failure(e)) => return Err(Ok(e)),
+            Err(HandshakeError::Interrupted(mut mid)) => {
+                log_i(&mut mid);
+                if peek(&mid) {
+                    return Err(Err(mid));
+                }
+                cur = mid.handshake();
+            }
+        }
+    }
+}
+
+/// HS id cb wbs max mms mfs au rbs seed ops rds wrs fls
+fn run_server(f: &[&str]) -> Result<(String, String), String> {
+    let cb = cb_of(f[2])?;
+    let cfg = config_of(f, 3);
+    let seed: u32 = f[9].parse().unwrap();
+    let mut ops = Vec::new();
+    for o in list(f[10]) {
+        ops.push(op_of(o)?);
+    }
+    let mut script = Script::parse(&list(f[11]), &list(f[12]), &list(f[13]))?;
+    script.hs_phase = true;
+    let mirror = std::rc::Rc::new(std::cell::RefCell::new(Snapshot::default()));
+    script.mirror = Some(mirror.clone());
+    let callback = move |_req: &Request, mut resp: Response| -> Result<Response, ErrorResponse> {
+        match &cb {
+            Cb::None => Ok(resp),
+            Cb::Add(hs) => {
+                for (n, v) in hs {
+                    resp.headers_mut().append(
+                        http::HeaderName::from_bytes(n).unwrap(),
+                        http::HeaderValue::from_bytes(v).unwrap(),
+                    );
+                }
+                Ok(resp)
+            }
+            Cb::Rej(st, body, hs) => {
+                let mut b = http::Response::builder().status(*st);
+                for (n, v) in hs {
+                    b = b.header(
+                        http::HeaderName::from_bytes(n).unwrap(),
+                        http::HeaderValue::from_bytes(v).unwrap(),
+                    );
+                }
+                Err(b.body(body.as_ref().map(|x| String::from_utf8(x.clone()).unwrap())).unwrap())
+            }
+        }
+    };
+    let r = catch_unwind(AssertUnwindSafe(|| {
+        drive(
+            tungstenite::accept_hdr_with_config(script, callback, Some(cfg)),
+            |mid| mid.get_ref().get_ref().exhausted_read,
+            |mid| mid.get_mut().get_mut().log.push("I".into()),
+        )
+    }));
+    let mut out = String::new();
+    let mut g: Vec<String> = f.iter().map(|x| x.to_string()).collect();
+    match r {
+        Err(_) => {
+            out.push_str("panic:rust");
+            let snap = mirror.borrow().clone();
+            for ev in &snap.log {
+                out.push(' ');
+                out.push_str(ev);
+            }
+            fill(&mut g, &snap, 11, true);
+        }
+        Ok(Ok(mut ws)) => {
+            out.push_str("ok");
+            for ev in &ws.get_ref().log {
+                out.push(' ');
+                out.push_str(ev);
+            }
+            let upto = ws.get_ref().log.len();
+            ws.get_mut().hs_phase = false;
+            tungstenite::protocol::frame::verif_set_mask_seed(seed);
+            run_ops_on(&mut ws, ops, upto, &mut out, false);
+            fill(&mut g, &ws.get_ref().snapshot(), 11, true);
+        }
+        Ok(Err(Ok(e))) => {
+            out.push_str(&error_s(&e));
+            // transport lost with the error: recover the log from the shared snapshot
+            let snap = mirror.borrow().clone();
+            for ev in &snap.log {
+                out.push(' ');
+                out.push_str(ev);
+            }
+            fill(&mut g, &snap, 11, true);
+        }
+        Ok(Err(Err(mid))) => {
+            out.push_str("blocked");
+            let s = mid.get_ref().get_ref().snapshot();
+            for ev in &s.log {
+                out.push(' ');
+                out.push_str(ev);
+            }
+            fill(&mut g, &s, 11, true);
+        }
+    }
+    Ok((g.join(" "), out))
+}
+
+fn fill(g: &mut Vec<String>, s: &Snapshot, i: usize, is_req: bool) {
+    g[i] = join_or_dash(&s.actual_rds);
+    g[i + 1] = join_or_dash(&s.actual_wrs);
+    g[i + 2] = join_or_dash(&s.actual_fls);
+    g.push(table(&s.hs_chunks, is_req));
+}
+
+/// marker "ACCEPT" NN c padded with '=' to 28 bytes -> the real accept value with char NN replaced by c (NN=99: unchanged)
+fn substitute_accept(data: &mut Vec<u8>, accept: &str) {
+    let mut i = 0;
+    while i + 28 <= data.len() {
+        if &data[i..i + 6] == b"ACCEPT" && data[i + 9..i + 28].iter().all(|b| *b == b'=') {
+            let nn = (data[i + 6] - b'0') as usize * 10 + (data[i + 7] - b'0') as usize;
+            let c = data[i + 8];
+            let mut a = accept.as_bytes().to_vec();
+            if nn < a.len() {
+                a[nn] = if a[nn] == c { if c == b'A' { b'B' } else { b'A' } } else { c };
+            }
+            data.splice(i..i + 28, a.iter().copied());
+            i += accept.len();
+        } else {
+            i += 1;
+        }
+    }
+}
+
+/// HC id uri subprotos extra wbs max mms mfs au rbs seed ops rds wrs fls
+/// M line: HCM id path hdrs wbs max mms mfs au rbs seed ops rds wrs fls table
+fn run_client(f: &[&str]) -> Result<(String, String), String> {
+    let uri_s = String::from_utf8(unhex(f[2])).map_err(|_| "uri utf8")?;
+    let uri: http::Uri = uri_s.parse().map_err(|_| "bad-uri")?;
+    let mut b = ClientRequestBuilder::new(uri);
+    for sp in list(f[3]) {
+        b = b.with_sub_protocol(String::from_utf8(unhex(sp)).map_err(|_| "sp")?);
+    }
+    for (n, v) in headers_of(f[4]) {
+        b = b.with_header(String::from_utf8(n).map_err(|_| "hn")?, String::from_utf8(v).map_err(|_| "hv")?);
+    }
+    let cfg = config_of(f, 5);
+    let seed: u32 = f[11].parse().unwrap();
+    let mut ops = Vec::new();
+    for o in list(f[12]) {
+        ops.push(op_of(o)?);
+    }
+    let mut script = Script::parse(&list(f[13]), &list(f[14]), &list(f[15]))?;
+    script.hs_phase = true;
+    let mirror = std::rc::Rc::new(std::cell::RefCell::new(Snapshot::default()));
+    script.mirror = Some(mirror.clone());
+    let mut g: Vec<String> = vec!["HCM".into(), f[1].into(), "1:none".into(), "-".into()];
+    for x in &f[5..16] {
+        g.push(x.to_string());
+    }
+    let req = match b.into_client_request() {
+        Ok(r) => r,
+        Err(e) => {
+            g.push("-".into());
+            return Ok((g.join(" "), format!("bad-case:request:{}", error_s(&e))));
+        }
+    };
+    g[2] = format!(
+        "{}:{}",
+        if matches!(req.uri().scheme_str(), Some("ws") | Some("wss")) { 1 } else { 0 },
+        match req.uri().path_and_query() {
+            Some(p) => hex(p.as_str().as_bytes()),
+            None => "none".into(),
+        }
+    );
+    g[3] = client_headers_s(req.headers());
+    let key = req.headers().get("sec-websocket-key").map(|k| k.as_bytes().to_vec()).unwrap_or_default();
+    let accept = derive_accept_key(&key);
+    // the marker may be cut by the segmentation: substitute on the concatenation (same length), then re-split
+    let mut all: Vec<u8> = vec![];
+    for r in script.rds.iter() {
+        if let Rd::Data(d) = r {
+            all.extend_from_slice(d);
+        }
+    }
+    substitute_accept(&mut all, &accept);
+    let mut pos = 0;
+    for r in script.rds.iter_mut() {
+        if let Rd::Data(d) = r {
+            let n = d.len();
+            d.copy_from_slice(&all[pos..pos + n]);
+            pos += n;
+        }
+    }
+    let r = catch_unwind(AssertUnwindSafe(|| {
+        drive(
+            tungstenite::client::client_with_config(req, script, Some(cfg)),
+            |mid| mid.get_ref().get_ref().exhausted_read,
+            |mid| mid.get_mut().get_mut().log.push("I".into()),
+        )
+    }));
+    let mut out = String::new();
+    match r {
+        Err(_) => {
+            out.push_str("panic:rust");
+            let snap = mirror.borrow().clone();
+            for ev in &snap.log {
+                out.push(' ');
+                out.push_str(ev);
+            }
+            fill(&mut g, &snap, 12, false);
+        }
+        Ok(Ok((mut ws, _resp))) => {
+            out.push_str("ok");
+            for ev in &ws.get_ref().log {
+                out.push(' ');
+                out.push_str(ev);
+            }
+            let upto = ws.get_ref().log.len();
+            ws.get_mut().hs_phase = false;
+            tungstenite::protocol::frame::verif_set_mask_seed(seed);
+            run_ops_on(&mut ws, ops, upto, &mut out, false);
+            fill(&mut g, &ws.get_ref().snapshot(), 12, false);
+        }
+        Ok(Err(Ok(e))) => {
+            out.push_str(&error_s(&e));
+            let snap = mirror.borrow().clone();
+            for ev in &snap.log {
+                out.push(' ');
+                out.push_str(ev);
+            }
+            fill(&mut g, &snap, 12, false);
+        }
+        Ok(Err(Err(mid))) => {
+            out.push_str("blocked");
+            let s = mid.get_ref().get_ref().snapshot();
+            for ev in &s.log {
+                out.push(' ');
+                out.push_str(ev);
+            }
+            fill(&mut g, &s, 12, false);
+        }
+    }
+    Ok((g.join(" "), out))
+}
+
+// ------------------------------------------------------------------------------------------
+// pure cases
+
+/// URI id urihex  ->  M: URI id authority|none path key
+fn run_uri(f: &[&str]) -> (String, String) {
+    let uri_s = match String::from_utf8(unhex(f[2])) {
+        Ok(s) => s,
+        Err(_) => return (f.join(" "), "bad-case:utf8".into()),
+    };
+    let uri: http::Uri = match uri_s.parse() {
+        Ok(u) => u,
+        Err(_) => return (format!("URI {} none - -", f[1]), "bad-case:uri".into()),
+    };
+    let auth = uri.authority().map(|a| hex(a.as_str().as_bytes())).unwrap_or_else(|| "none".into());
+    let path = uri.path_and_query().map(|p| hex(p.as_str().as_bytes())).unwrap_or_else(|| "-".into());
+    match uri.into_client_request() {
+        Ok(req) => {
+            let key = req.headers().get("sec-websocket-key").map(|k| hex(k.as_bytes())).unwrap_or_else(|| "-".into());
+            (format!("URI {} {} {} {}", f[1], auth, path, key), format!("ok:{}:{}", path, headermap_s(req.headers())))
+        }
+        Err(e) => (format!("URI {} {} {} -", f[1], auth, path), error_s(&e)),
+    }
+}
+
+fn build_request(method: &str, version: &str, path: &[u8], hs: &[(Vec<u8>, Vec<u8>)]) -> Result<Request, String> {
+    let mut b = http::Request::builder()
+        .method(method)
+        .version(match version {
+            "10" => http::Version::HTTP_10,
+            "11" => http::Version::HTTP_11,
+            "20" => http::Version::HTTP_2,
+            _ => http::Version::HTTP_09,
+        })
+        .uri(format!("ws://localhost{}", String::from_utf8_lossy(path)));
+    for (n, v) in hs {
+        b = b.header(
+            http::HeaderName::from_bytes(n).map_err(|_| "bad header name")?,
+            http::HeaderValue::from_bytes(v).map_err(|_| "bad header value")?,
+        );
+    }
+    b.body(()).map_err(|_| "bad request".into())
+}
+
+/// SD id method version hdrs -> M: SD id method_is_get version_ge_11 hdrs(lowercase, map order)
+fn run_server_decide(f: &[&str]) -> (String, String) {
+    let method = String::from_utf8(unhex(f[2])).unwrap_or_default();
+    let req = match build_request(&method, f[3], b"/", &headers_of(f[4])) {
+        Ok(r) => r,
+        Err(e) => return (f.join(" "), format!("bad-case:{e}")),
+    };
+    let m = format!(
+        "SD {} {} {} {}",
+        f[1],
+        if req.method() == http::Method::GET { 1 } else { 0 },
+        if req.version() >= http::Version::HTTP_11 { 1 } else { 0 },
+        headermap_s(req.headers())
+    );
+    let t = match create_response(&req) {
+        Ok(resp) => format!("ok:{}:{}", resp.status().as_u16(), headermap_s(resp.headers())),
+        Err(e) => error_s(&e),
+    };
+    (m, t)
+}
+
+/// GR id path hdrs -> M: GR id path|none hdrs(map order)
+fn run_generate_request(f: &[&str]) -> (String, String) {
+    let req = match build_request("GET", "11", &unhex(f[2]), &headers_of(f[3])) {
+        Ok(r) => r,
+        Err(e) => return (f.join(" "), format!("bad-case:{e}")),
+    };
+    let m = format!(
+        "GR {} {} {}",
+        f[1],
+        req.uri().path_and_query().map(|p| hex(p.as_str().as_bytes())).unwrap_or_else(|| "none".into()),
+        client_headers_s(req.headers())
+    );
+    let t = match generate_request(req) {
+        Ok((bytes, key)) => format!("ok:{}:{}", hex(&bytes), hex(key.as_bytes())),
+        Err(e) => error_s(&e),
+    };
+    (m, t)
+}
+
+/// TP id req|resp hex : outcome of the real parser (for the P1-P3 assumption tests)
+fn run_try_parse(f: &[&str]) -> (String, String) {
+    let buf = unhex(f[3]);
+    let t = if f[2] == "req" { oracle_req(&buf) } else { oracle_resp(&buf) };
+    (f.join(" "), t)
+}
+
+pub fn run(kind: &str, f: &[&str]) -> Option<(String, String)> {
+    let line = f.join(" ");
+    Some(match kind {
+        "HS" => run_server(f).unwrap_or_else(|e| (line, format!("bad-case:{e}"))),
+        "HC" => run_client(f).unwrap_or_else(|e| (line, format!("bad-case:{e}"))),
+        "AK" => (line, hex(derive_accept_key(&unhex(f[2])).as_bytes())),
+        "URI" => run_uri(f),
+        "SD" => run_server_decide(f),
+        "GR" => run_generate_request(f),
+        "TP" => run_try_parse(f),
+        "AC" => (line, "model-only".into()),
+        _ => return None,
+    })
+}
+
+#[allow(dead_code)]
+fn _unused(_: WebSocket<Script>) {}
